@@ -639,3 +639,94 @@ func TestVerifC16Overlap(t *testing.T) {
 	b.mu.Unlock()
 	out.emit(map[string]interface{}{"kind": "open-count", "open": open, "scenarios": total})
 }
+
+// TestVerifC15Route: which requests the bridge handler takes for itself and which it passes through
+// untouched: plain requests and websocket upgrades, on the streaming path and on look-alikes.
+func TestVerifC15Route(t *testing.T) {
+	out := verifOpenOut(t)
+	defer out.close()
+	// a TCP server for bridged connections
+	ln, err := net.Listen("tcp", "127.0.0.1:0")
+	if err != nil {
+		t.Fatal(err)
+	}
+	defer ln.Close()
+	var tmu sync.Mutex
+	tcpConns := 0
+	go func() {
+		for {
+			c, err := ln.Accept()
+			if err != nil {
+				return
+			}
+			tmu.Lock()
+			tcpConns++
+			tmu.Unlock()
+			go func(c net.Conn) { io.Copy(io.Discard, c); c.Close() }(c)
+		}
+	}()
+	var pmu sync.Mutex
+	var seen []string
+	passthrough := http.HandlerFunc(func(w http.ResponseWriter, r *http.Request) {
+		pmu.Lock()
+		seen = append(seen, r.Method+" "+r.URL.RequestURI()+" upgrade="+r.Header.Get("Upgrade")+" marker="+r.Header.Get("X-Verif-Marker"))
+		pmu.Unlock()
+		w.Header().Set("X-Verif-Passthrough", "yes")
+		w.WriteHeader(200)
+		w.Write([]byte("passthrough"))
+	})
+	srv := httptest.NewServer(Handler(ln.Addr().(*net.TCPAddr).Port, passthrough))
+	defer srv.Close()
+	paths := []string{StreamingPath, "/", "/other", StreamingPath + "/", StreamingPath + "x", strings.TrimSuffix(StreamingPath, "6"), strings.ToUpper(StreamingPath), "/prefix" + StreamingPath, StreamingPath + "?q=1"}
+	for _, p := range paths {
+		for _, upgrade := range []bool{false, true} {
+			pmu.Lock()
+			seen = nil
+			pmu.Unlock()
+			tmu.Lock()
+			before := tcpConns
+			tmu.Unlock()
+			marker := fmt.Sprintf("m-%v-%x", upgrade, sha256.Sum256([]byte(p)))[:16]
+			res := map[string]interface{}{"kind": "route", "path": p, "upgrade": upgrade}
+			if upgrade {
+				d := websocket.Dialer{HandshakeTimeout: 3 * time.Second}
+				c, resp, err := d.Dial("ws"+strings.TrimPrefix(srv.URL, "http")+p, http.Header{"X-Verif-Marker": {marker}})
+				if err == nil {
+					res["handshake"] = "accepted"
+					c.WriteMessage(websocket.TextMessage, []byte("6869"))
+					time.Sleep(100 * time.Millisecond)
+					c.Close()
+				} else {
+					res["handshake"] = "refused"
+					if resp != nil {
+						res["status"] = resp.StatusCode
+						res["passthrough_header"] = resp.Header.Get("X-Verif-Passthrough")
+					}
+				}
+			} else {
+				req, _ := http.NewRequest("POST", srv.URL+p, strings.NewReader("plain-body"))
+				req.Header.Set("X-Verif-Marker", marker)
+				resp, err := http.DefaultClient.Do(req)
+				if err != nil {
+					res["err"] = err.Error()
+				} else {
+					b, _ := io.ReadAll(resp.Body)
+					resp.Body.Close()
+					res["status"] = resp.StatusCode
+					res["passthrough_header"] = resp.Header.Get("X-Verif-Passthrough")
+					res["body"] = string(b)
+				}
+			}
+			time.Sleep(50 * time.Millisecond)
+			pmu.Lock()
+			res["passthrough_saw"] = append([]string{}, seen...)
+			pmu.Unlock()
+			tmu.Lock()
+			res["tcp_connections"] = tcpConns - before
+			tmu.Unlock()
+			res["marker"] = marker
+			res["streaming_path"] = StreamingPath
+			out.emit(res)
+		}
+	}
+}
